@@ -32,7 +32,7 @@ package main
 //@   at call Text#1: assert $encoded == count
 //@   at call Text#1: assert arg2 == 200
 //@   at call Error#1: assert arg1 == 400
-//@   modifies heap
+//@   modifies heap, $encoded
 
 // Reading a merged day: every line the scanner delivers becomes one report,
 // and success is reported only if the scanner ended without an error (a line
@@ -67,7 +67,7 @@ package main
 //@   at call group#1: assert len(arg0) == $total && !$dayErr
 //@   at call charts#1: assert len(arg4) == $total && !$dayErr
 //@   at call Text#1: assert arg2 == 200
-//@   modifies heap
+//@   modifies heap, $base, $dayErr, $lines, $readerErr, $scanOK, $total
 
 //@ contract fileName
 //@   modifies nothing
